@@ -429,6 +429,22 @@ impl Wallet {
 		})
 	}
 
+	/// A brand-new wallet with a seed of its own (no recovery phrase supplied): its init status is
+	/// "no scanning needed", so its first refresh only looks at the last blocks - the way an ordinary
+	/// new user's wallet starts, unlike the harness's phrase-created wallets.
+	pub fn create_new(node: DirectNode, dir: &str, name: &str, password: &str) -> Result<Wallet, libwallet::Error> {
+		let inst = Wallet::new_inst(node, dir);
+		let (mask, mnemonic) = {
+			let mut w = inst.lock();
+			let lc = w.lc_provider()?;
+			lc.create_wallet(None, None, 32, ZeroingString::from(password), false)?;
+			let m = lc.open_wallet(None, ZeroingString::from(password), false, false)?;
+			let phrase = lc.get_mnemonic(None, ZeroingString::from(password))?;
+			(m, phrase.to_string())
+		};
+		Ok(Wallet { name: name.to_string(), dir: dir.to_string(), inst, mask, mnemonic, password: password.to_string(), masked: false })
+	}
+
 	pub fn open(
 		node: DirectNode,
 		dir: &str,
